@@ -240,7 +240,7 @@ var decoders = map[string]func(b []byte, aux []string) string{
 	},
 	"ber": func(b []byte, _ []string) string {
 		out, err := x509.VerifBer2der(b)
-		if err == nil && len(out) > 2*len(b)+16 {
+		if err == nil && len(out) > 2*len(b) { // C18_ber2der_output_size
 			return "ALLOC output " + strconv.Itoa(len(out)) + " bytes for " + strconv.Itoa(len(b))
 		}
 		return okErr(err)
@@ -375,6 +375,9 @@ func call(f []string) string {
 		if err != nil {
 			return "err"
 		}
+		if len(out) > 2*len(hx.UnHex(f[2])) {
+			return "ALLOC output longer than twice the input"
+		}
 		return "ok " + hx.Hex(out)
 	case "UNP", "PAD":
 		bl, _ := strconv.Atoi(f[2])
@@ -488,23 +491,38 @@ func runOnce(f []string) (string, time.Duration) {
 	return res, time.Since(t0)
 }
 
-// second pass (sequential) for calls that looked expensive: time again, measure allocation
+// second pass (sequential, nothing else running in the process) for calls that looked expensive or ran out
+// of time in the parallel pass.  Only this pass decides HANG / SLOW / ALLOC, and it does not depend on the
+// machine load: the deadline is 10x hangAfter (hx.Solo), and "slow" is judged on the CPU time the process
+// consumed during the call (the smaller of CPU time and wall time, in case an earlier, really hanging call is
+// still spinning in the background), not on the wall clock.
 func recheck(f []string, res string, el time.Duration) string {
 	var m0, m1 runtime.MemStats
-	runtime.GC()
-	runtime.ReadMemStats(&m0)
-	res2, el2 := runOnce(f)
-	runtime.ReadMemStats(&m1)
-	if el2 < el {
-		res, el = res2, el2
+	var res2 string
+	var el2, cpu time.Duration
+	hx.Solo(func() {
+		runtime.GC()
+		runtime.ReadMemStats(&m0)
+		c0 := hx.CPUTime()
+		res2, el2 = runOnce(f)
+		cpu = hx.CPUTime() - c0
+		runtime.ReadMemStats(&m1)
+	})
+	if res2 == "HANG" {
+		return "HANG"
 	}
-	if res == "HANG" {
-		return res
+	res = res2
+	cost := el2
+	if cpu > 0 && cpu < cost {
+		cost = cpu
 	}
-	if el > slowAfter {
-		return fmt.Sprintf("SLOW %d ms", el.Milliseconds())
+	if el < cost && res != "HANG" {
+		cost = el // the first measurement was already below
 	}
-	if a := m1.TotalAlloc - m0.TotalAlloc; res2 != "HANG" && a > allocMax {
+	if cost > slowAfter {
+		return fmt.Sprintf("SLOW %d ms", cost.Milliseconds())
+	}
+	if a := m1.TotalAlloc - m0.TotalAlloc; a > allocMax {
 		return fmt.Sprintf("ALLOC %d MiB", a>>20)
 	}
 	return res
@@ -534,9 +552,17 @@ func runAll(lines []string) []string {
 	}
 	close(ch)
 	wg.Wait()
+	hangs := 0 // to bound the cost when something really hangs: stop re-examining HANGs after three confirmed ones
 	for i := 0; i < n; i++ {
+		if res[i] == "HANG" && hangs >= 3 {
+			continue
+		}
 		if res[i] == "HANG" || els[i] > 50*time.Millisecond {
+			first := res[i]
 			res[i] = recheck(strings.Split(lines[i], " "), res[i], els[i])
+			if first == "HANG" && res[i] == "HANG" {
+				hangs++
+			}
 		}
 	}
 	out := make([]string, n)
@@ -929,8 +955,10 @@ func buildCorpus() *corpus {
 	add(base{dec: "p12", data: p12, der: true, cap: 1200})
 	add(base{dec: "p12all", data: p12, der: true, cap: 600})
 	add(base{dec: "p12pem", data: p12, der: true, cap: 600})
-	if old, err := os.ReadFile("/repo/pkcs12/test.p12"); err == nil && len(old) > 0 {
-		add(base{dec: "p12all", data: old, der: true, cap: 300})
+	// a second container (fresh salts and IVs).  This used to be /repo/pkcs12/test.p12 when present - a file that
+	// only exists after somebody ran the package's tests, so the corpus depended on the state of the work tree.
+	if p12b, err := pkcs12.Encode(keyA, cA, nil, password); err == nil {
+		add(base{dec: "p12all", data: p12b, der: true, cap: 300})
 	}
 	var p12key struct {
 		Version    int
